@@ -173,7 +173,9 @@ def view_alphabet(shape):
     """The C04 view alphabet for one shape (kept local: C20 is the helpers)."""
     nd = len(shape)
     pal = [slice(None), slice(1, None), slice(None, -1), slice(None, None, 2), slice(1, None, 2),
-           slice(1, 2), slice(0, 0)]
+           slice(1, 2), slice(0, 0),
+           # empty because the start lies BEYOND the stop in the direction of the step, and negative steps
+           slice(2, 1), slice(3, 0, 2), slice(0, 2, -1), slice(None, None, -1), slice(-1, 0, -2)]
     views = [None, Ellipsis]
     for k in range(1, nd + 1):
         entries = pal + [0, -1] + ([1] if min(shape[:k]) > 1 else [])
